@@ -40,6 +40,11 @@ class CellTranslator(AbstractTranslator):
                     context._cells_in_progress.discard(cell.uid)
             else:
                 code = repr(cell.value) if cell.value is not None else 'self.EmptyCell()'
+                try:
+                    compile(code, '<cell>', 'eval')
+                except SyntaxError:
+                    # an object openpyxl delivers instead of a value (a data-table formula, ...): it has no Python notation
+                    raise E2PyclParserException(f'The content of the cell {cell} ({type(cell.value).__name__}) cannot be translated')
             context.set_cell(cell, code)
         return cell, excel, context
 
